@@ -33,7 +33,12 @@ Str(s) == [t |-> "str", v |-> s]
 
 InitState ==
   [idx |-> 0, kv |-> {}, tombs |-> {}, sess |-> {}, schk |-> {}, nodes |-> {},
-   svcs |-> {}, chks |-> {}, pq |-> {}, coords |-> {}, tix |-> <<>>]
+   svcs |-> {}, chks |-> {}, pq |-> {}, coords |-> {}, tix |-> <<>>,
+   \* lock delay (state/session.go deleteSessionTxn, state/delay.go): lds = sessions created with a positive lock delay,
+   \* delayed = keys inside their lock-delay window.  The window is leader-local wall-clock state: it is opened by the
+   \* invalidation of the holding session, closed by the timer action DelayExpires, and ENFORCED only in front of Raft
+   \* (EndpointApply below), never by the FSM.
+   lds |-> {}, delayed |-> {}]
 
 ---------------------------------------------------------------------------
 (* index table *)
@@ -197,13 +202,17 @@ DeleteSession(st, idx, id) ==
                                    "tombstones", idx), "kvs", idx)
                 ELSE TixSet([s1 EXCEPT !.kv = (@ \ held) \cup {[e EXCEPT !.s = "", !.mi = idx] : e \in held}],
                             "kvs", idx)
-        s3   == [s2 EXCEPT !.schk = {m \in @ : m.sess # id}]
+        \* every key the session held enters its lock-delay window, whether it was released or deleted
+        s3   == [s2 EXCEPT !.schk = {m \in @ : m.sess # id},
+                           !.delayed = IF id \in st.lds THEN @ \cup {e.k : e \in held} ELSE @,
+                           !.lds = @ \ {id}]
         s4   == IF \E q \in s3.pq : q.sess = id
                 THEN TixSet([s3 EXCEPT !.pq = {q \in @ : q.sess # id}], "prepared-queries", idx)
                 ELSE s3
     IN SetSessionChecks(s4, idx, s.node, s.name, "critical")
 
 \* sessionCreateTxn
+HasDelay(c) == "delay" \in DOMAIN c /\ c.delay = "yes"
 SessionCreate(st, idx, c) ==
   LET beh == IF c.beh = "" THEN "release" ELSE c.beh
       chkOK == \A cid \in c.checks :
@@ -215,6 +224,7 @@ SessionCreate(st, idx, c) ==
   ELSE
     LET row == [id |-> c.id, node |-> c.node, beh |-> beh, checks |-> c.checks, name |-> c.name, ci |-> idx]
         s1  == [st EXCEPT !.sess = {x \in @ : x.id # c.id} \cup {row},
+                          !.lds = IF HasDelay(c) THEN @ \cup {c.id} ELSE @ \ {c.id},
                           !.schk = @ \cup {[node |-> c.node, check |-> cid, sess |-> c.id] : cid \in c.checks}]
         s2  == TixSet(s1, "sessions", idx)
     IN [st |-> SetSessionChecks(s2, idx, c.node, c.name, "passing"), res |-> Str(c.id)]
@@ -422,6 +432,21 @@ ApplyAt(st0, idx, c) ==
     [] c.t = "pq"    -> IF c.op = "set" THEN PQSet(st, idx, c) ELSE PQDelete(st, idx, c)
     [] c.t = "txn"   -> ApplyTxn(st, idx, c)
     [] OTHER         -> [st |-> st, res |-> Err]
+
+\* Lock delay.  DelayExpires is the timer of state/delay.go; EndpointApply is what KVS.Apply / Txn.Apply (kvs_endpoint.go
+\* kvsPreApply) put in front of Raft: a lock on a key inside its window is refused WITHOUT a Raft write - a direct lock
+\* answers false, a transaction carrying such a lock is rejected as a whole with an error for that op.  `edge` = keys
+\* whose window ends within the clock uncertainty of the observer: for them either outcome is allowed.
+DelayExpires(st, k) == [st EXCEPT !.delayed = @ \ {k}]
+DelayedLocks(st, c) ==
+  IF c.t = "kv" THEN (IF c.op = "lock" /\ c.k \in st.delayed THEN {1} ELSE {})
+  ELSE IF c.t = "txn" THEN {i \in DOMAIN c.ops : c.ops[i].fam = "kv" /\ c.ops[i].verb = "lock" /\ c.ops[i].k \in st.delayed}
+  ELSE {}
+EndpointApply(st0, idx, c) ==
+  LET d == DelayedLocks(st0, c) IN
+  IF d = {} THEN ApplyAt(st0, idx, c)
+  ELSE IF c.t = "kv" THEN [st |-> st0, res |-> Bool(FALSE)]
+  ELSE [st |-> st0, res |-> [t |-> "txn", ok |-> "no", errs |-> {i - 1 : i \in d}, unk |-> {}, outs |-> <<>>]]
 
 \* A commit can still fail after every operation of the command succeeded: the change events are generated
 \* inside the commit, before the memdb commit (state/memdb.go txn.Commit).  The command then reports an error and
